@@ -200,8 +200,10 @@ static void drv_step(struct cmd *c)
 	if (!strcmp(a, "fill")) {
 		const char *kind = drv_raw(c, "kind");
 		long len = (long) drv_int(c, "len", 0), ld = (long) drv_int(c, "ld", 1), k;
-		double *t = (double *) malloc((size_t) (len > 0 ? len * ld : 1) * sizeof(*t));
-		for (k = 0; k < len * ld; k++) t[k] = -12345.0;
+		/* the target lies inside a larger array: guard cells before, between and behind the requested elements */
+		long guard = 2 * (ld > 0 ? ld : 1) + 2, cells = (len > 0 ? len * ld : 0) + 2 * guard;
+		double *base = (double *) malloc((size_t) cells * sizeof(*base)), *t = base + guard;
+		for (k = 0; k < cells; k++) base[k] = -12345.0;
 		if (kind && !strcmp(kind, "bound")) mpt_values_bound(len, t, ld, rat(c, "a", 0), rat(c, "b", 0), rat(c, "c", 0));
 		else mpt_values_linear(len, t, ld, rat(c, "a", 0), rat(c, "b", 1));
 		drv_begin(c);
@@ -214,13 +216,16 @@ static void drv_step(struct cmd *c)
 		}
 		j_arr_close();
 		{
-			int clean = 1;   /* cells between the strided targets untouched */
-			for (k = 0; k < len * ld; k++) if (k % ld && t[k] != -12345.0) clean = 0;
+			int clean = 1;   /* every cell that is not a requested element is untouched */
+			for (k = -guard; k < cells - guard; k++) {
+				int elem = k >= 0 && k < len * ld && !(k % ld);
+				if (!elem && t[k] != -12345.0) clean = 0;
+			}
 			j_int("clean", clean);
 		}
 		drv_dbg();
 		drv_end();
-		free(t);
+		free(base);
 		return;
 	}
 	if (i < 0 || i >= ninst || !it[i]) {
